@@ -27,9 +27,11 @@ The translator interprets; it does not execute read()/write().  It is determinis
 /verif/harness/lib.
 """
 import ast
+import copy
 import importlib
 import json
 import os
+import re
 import sys
 
 VERS = [10, 11, 12, 13, 14, 20]
@@ -113,12 +115,28 @@ def norm_slot(s):
     return s.lstrip("_") if s else s
 
 
+NEGATED = {ast.Lt: ast.GtE, ast.GtE: ast.Lt, ast.Gt: ast.LtE, ast.LtE: ast.Gt, ast.Eq: ast.NotEq, ast.NotEq: ast.Eq}
+MIRRORED = {ast.Lt: ast.Gt, ast.Gt: ast.Lt, ast.LtE: ast.GtE, ast.GtE: ast.LtE, ast.Eq: ast.Eq, ast.NotEq: ast.NotEq}
+
+
+def _version_constant(node):
+    if isinstance(node, ast.Attribute) and node.attr in VERSION_NAMES and src(node).endswith("KMIPVersion." + node.attr):
+        return VERSION_NAMES[node.attr]
+    return None
+
+
 def version_test(test):
-    """`kmip_version <op> enums.KMIPVersion.KMIP_x_y` -> (op class, version number)"""
-    if isinstance(test, ast.Compare) and len(test.ops) == 1 and isinstance(test.left, ast.Name) \
-            and test.left.id == "kmip_version" and isinstance(test.comparators[0], ast.Attribute) \
-            and test.comparators[0].attr in VERSION_NAMES:
-        return type(test.ops[0]), VERSION_NAMES[test.comparators[0].attr]
+    """`kmip_version <op> enums.KMIPVersion.KMIP_x_y` -> (op class, version number); also with the operands swapped
+    (`KMIP_2_0 <= kmip_version`) and under `not (...)`"""
+    if isinstance(test, ast.UnaryOp) and isinstance(test.op, ast.Not):
+        inner = version_test(test.operand)
+        return (NEGATED[inner[0]], inner[1]) if inner else None
+    if isinstance(test, ast.Compare) and len(test.ops) == 1 and type(test.ops[0]) in NEGATED:
+        a, b, op = test.left, test.comparators[0], type(test.ops[0])
+        if isinstance(a, ast.Name) and a.id == "kmip_version" and _version_constant(b) is not None:
+            return op, _version_constant(b)
+        if isinstance(b, ast.Name) and b.id == "kmip_version" and _version_constant(a) is not None:
+            return MIRRORED[op], _version_constant(a)
     return None
 
 
@@ -138,6 +156,10 @@ def split_range(ver, op, v):
         t = [x for x in inside if x > v]
     elif op is ast.GtE:
         t = [x for x in inside if x >= v]
+    elif op is ast.Eq:
+        t = [x for x in inside if x == v]
+    elif op is ast.NotEq:
+        t = [x for x in inside if x != v]
     else:
         raise Unrecognised("version comparison with operator %s" % op.__name__)
     f = [x for x in inside if x not in t]
@@ -278,11 +300,23 @@ class Oracle(object):
     def ev(self, node):
         return eval(compile(ast.Expression(body=node), "<gen_schemas>", "eval"), dict(self.ns))
 
+    def ev_class_constant(self, node):
+        """`self.NAME` where NAME is an attribute of the CLASS (not of the instance) holding a Tags / Types member"""
+        a = self_attr(node)
+        if a is not None and a in {k for c in self.cls.__mro__ for k in vars(c)}:
+            v = getattr(self.cls, a)
+            if isinstance(v, (self.enums.Tags, self.enums.Types)):
+                return v
+        raise KeyError(src(node))
+
     def tag_value(self, node):
         try:
             t = self.ev(node)
         except Exception:
-            raise Unrecognised("the tag tested / used (%s) is computed at run time" % src(node), node)
+            try:
+                t = self.ev_class_constant(node)
+            except Exception:
+                raise Unrecognised("the tag tested / used (%s) is computed at run time" % src(node), node)
         if not isinstance(t, self.enums.Tags):
             raise Unrecognised("%s is not a member of enums.Tags" % src(node), node)
         return t.value
@@ -317,7 +351,11 @@ class Oracle(object):
                 kwargs[kw.arg] = self.ev(kw.value)
             except Exception:
                 if kw.arg == "tag":
-                    return None          # the tag itself is computed at run time
+                    try:
+                        kwargs[kw.arg] = self.ev_class_constant(kw.value)
+                        continue
+                    except Exception:
+                        return None      # the tag itself is computed at run time
                 kwargs[kw.arg] = None
         for attempt in ((args, kwargs), (args, {k: v for k, v in kwargs.items() if k in ("tag", "enum")}),
                         ([], {k: v for k, v in kwargs.items() if k in ("tag", "enum")})):
@@ -382,6 +420,412 @@ class Oracle(object):
 
 
 # ---------------------------------------------------------------------------------------------------------
+# normalisation: behaviour-preserving rewrites of read()/write() into the forms the interpreters know
+# ---------------------------------------------------------------------------------------------------------
+
+STREAM_OPS = ("read", "write", "is_tag_next", "is_type_next", "peek", "is_oversized")
+NOT_INLINED = ("read", "write", "validate", "is_tag_next", "is_type_next", "is_oversized", "__init__", "length")
+MAX_INLINE_DEPTH = 3
+
+
+class NotInlinable(Exception):
+    pass
+
+
+def _stream_ops_in(node):
+    return any(isinstance(n, ast.Call) and isinstance(n.func, ast.Attribute) and n.func.attr in STREAM_OPS
+               for n in ast.walk(node))
+
+
+def _ends_with_return(stmts):
+    return bool(stmts) and isinstance(stmts[-1], ast.Return)
+
+
+def _has_return(stmts):
+    return any(isinstance(n, ast.Return) for s in stmts for n in ast.walk(s))
+
+
+def eliminate_returns(stmts, target):
+    """rewrite a statement list in which `return` only occurs as the last statement of a branch of (nested) if-
+    statements into one without `return`: `if c: A; return x` followed by B becomes `if c: A; target = x else: B`.
+    target = None: the returned value is dropped."""
+    out = []
+    for i, st in enumerate(stmts):
+        if isinstance(st, ast.Return):
+            if target is not None:
+                out.append(ast.Assign(targets=[copy.deepcopy(target)], value=st.value or ast.Constant(value=None)))
+            elif st.value is not None and not isinstance(st.value, (ast.Constant, ast.Name)):
+                out.append(ast.Expr(value=st.value))
+            return out, True
+        if isinstance(st, ast.If) and (_has_return(st.body) or _has_return(st.orelse)):
+            rest = stmts[i + 1:]
+            body, b_ret = eliminate_returns(st.body + ([] if _ends_with_return(st.body) else rest), target)
+            orelse, o_ret = eliminate_returns(st.orelse + ([] if _ends_with_return(st.orelse) else rest), target)
+            if rest and not (_ends_with_return(st.body) or _ends_with_return(st.orelse)):
+                raise NotInlinable("`return` nested below an if-statement that is followed by more statements")
+            out.append(ast.If(test=st.test, body=body or [ast.Pass()], orelse=orelse))
+            return out, b_ret and o_ret
+        if _has_return([st]):
+            raise NotInlinable("`return` inside a %s statement" % type(st).__name__.lower())
+        out.append(st)
+    if target is not None:
+        out.append(ast.Assign(targets=[copy.deepcopy(target)], value=ast.Constant(value=None)))
+    return out, False
+
+
+class Normaliser(object):
+    """AST -> AST.  (1) helper functions of the same module / methods of the same class (or inherited from a kmip
+    module) that touch the stream are inlined at their call sites: statement calls, `x = helper(...)`, and
+    one-expression helpers inside conditions; parameters are substituted, the helper's locals renamed, `return`
+    turned into assignment; depth <= 3, no recursion.  (2) guard forms are brought to the canonical ones:
+    `if v: raise else: A`, `if X is None: ... else: write`, `if not self.is_tag_next(T, s): raise` + read,
+    `for a in self._xs or []`, a list built from an attribute and then written in a loop."""
+
+    def __init__(self, tree, cls_node, oracle):
+        self.module_funcs = {n.name: n for n in tree.body if isinstance(n, ast.FunctionDef)}
+        self.methods = {n.name: n for n in cls_node.body if isinstance(n, ast.FunctionDef)}
+        self.o = oracle
+        self.counter = 0
+        self.notes = []
+
+    # -- helpers ----------------------------------------------------------------------------------------
+    def find_helper(self, call):
+        """(FunctionDef, takes self?, display name) of the function a call refers to, or None"""
+        if not isinstance(call, ast.Call):
+            return None
+        f = call.func
+        if isinstance(f, ast.Name) and f.id in self.module_funcs:
+            return self.module_funcs[f.id], False, f.id
+        if isinstance(f, ast.Attribute) and is_self(f.value):
+            if f.attr in NOT_INLINED:
+                return None
+            fd = self.methods.get(f.attr)
+            if fd is not None:
+                decos = [src(d) for d in fd.decorator_list]
+                if "staticmethod" in decos:
+                    return fd, False, "self." + f.attr
+                if decos:
+                    return None
+                return fd, True, "self." + f.attr
+            live = getattr(self.o.cls, f.attr, None)
+            return self.live_function(live, True, "self." + f.attr)
+        if isinstance(f, (ast.Name, ast.Attribute)) and not src(f).startswith("self."):
+            try:
+                live = self.o.ev(f)
+            except Exception:
+                return None
+            return self.live_function(live, False, src(f))
+        return None
+
+    def live_function(self, live, takes_self, name):
+        import inspect
+        import textwrap
+        if not inspect.isfunction(live) or not getattr(live, "__module__", "").startswith("kmip.") \
+                or live.__module__ in ("kmip.core.primitives", "kmip.core.utils", "kmip.core.enums"):
+            return None
+        try:
+            tree = ast.parse(textwrap.dedent(inspect.getsource(live)))
+        except Exception:
+            return None
+        fd = tree.body[0] if tree.body and isinstance(tree.body[0], ast.FunctionDef) else None
+        if fd is None:
+            return None
+        return fd, takes_self, name
+
+    def bind(self, fd, takes_self, call):
+        a = fd.args
+        if a.vararg or a.kwarg or a.kwonlyargs:
+            raise NotInlinable("*args / **kwargs / keyword-only parameters")
+        params = [p.arg for p in list(getattr(a, "posonlyargs", [])) + list(a.args)]
+        if takes_self:
+            params = params[1:]
+        defaults = dict(zip(params[len(params) - len(a.defaults):], a.defaults)) if a.defaults else {}
+        if any(isinstance(x, ast.Starred) for x in call.args) or any(kw.arg is None for kw in call.keywords):
+            raise NotInlinable("call with * / ** arguments")
+        if len(call.args) > len(params):
+            raise NotInlinable("more arguments than parameters")
+        m = dict(zip(params, call.args))
+        for kw in call.keywords:
+            if kw.arg not in params or kw.arg in m:
+                raise NotInlinable("keyword argument %s does not match a free parameter" % kw.arg)
+            m[kw.arg] = kw.value
+        for p in params:
+            if p not in m:
+                if p not in defaults:
+                    raise NotInlinable("parameter %s is not given" % p)
+                m[p] = defaults[p]
+        return m
+
+    def substitute(self, nodes, mapping, call):
+        self.counter += 1
+        suffix = "__h%d" % self.counter
+        local = set()
+        for n in nodes:
+            for x in ast.walk(n):
+                if isinstance(x, ast.Name) and isinstance(x.ctx, ast.Store):
+                    if x.id in mapping:
+                        raise NotInlinable("the helper assigns to its parameter %s" % x.id)
+                    local.add(x.id)
+
+        class T(ast.NodeTransformer):
+            def visit_Name(self, node):
+                if node.id in mapping and isinstance(node.ctx, ast.Load):
+                    return copy.deepcopy(mapping[node.id])
+                if node.id in local:
+                    return ast.Name(id=node.id + suffix, ctx=node.ctx)
+                return node
+        out = [T().visit(copy.deepcopy(n)) for n in nodes]
+        for n in out:
+            for x in ast.walk(n):
+                x.lineno = call.lineno
+                x.col_offset = call.col_offset
+                x.end_lineno = getattr(call, "end_lineno", call.lineno)
+                x.end_col_offset = getattr(call, "end_col_offset", call.col_offset)
+        return out
+
+    def relevant(self, fd, call, streams):
+        args = list(call.args) + [kw.value for kw in call.keywords]
+        return any(isinstance(x, ast.Name) and x.id in streams for x in args) or _stream_ops_in(fd)
+
+    def instantiate(self, fd, takes_self, call, target):
+        mapping = self.bind(fd, takes_self, call)
+        body = strip_doc(copy.deepcopy(fd.body))
+        body, _ = eliminate_returns(body, target)
+        return self.substitute(body, mapping, call)
+
+    def expression_helper(self, call):
+        """a helper whose body is `return <expression>` (e.g. `_is_2_0(v)`): the expression at the call site"""
+        h = self.find_helper(call)
+        if h is None:
+            return None
+        fd, takes_self, name = h
+        body = strip_doc(fd.body)
+        if len(body) != 1 or not isinstance(body[0], ast.Return) or body[0].value is None:
+            return None
+        try:
+            mapping = self.bind(fd, takes_self, call)
+            return self.substitute([body[0].value], mapping, call)[0]
+        except NotInlinable:
+            return None
+
+    def inline_in_test(self, test, depth=0):
+        norm = self
+
+        class T(ast.NodeTransformer):
+            def visit_Call(self, node):
+                self.generic_visit(node)
+                if depth < MAX_INLINE_DEPTH:
+                    e = norm.expression_helper(node)
+                    if e is not None:
+                        norm.notes.append("inlined %s in a condition (line %d)" % (src(node.func), node.lineno))
+                        return norm.inline_in_test(e, depth + 1)
+                return node
+        return T().visit(test)
+
+    def expand(self, stmts, streams, depth, stack):
+        out = []
+        for st in stmts:
+            if isinstance(st, (ast.If, ast.While)):
+                st.test = self.inline_in_test(st.test)
+            call, target = call_of(st), None
+            if call is None and isinstance(st, ast.Assign) and len(st.targets) == 1 and isinstance(st.value, ast.Call):
+                call, target = st.value, st.targets[0]
+            h = self.find_helper(call) if call is not None else None
+            if h is not None and self.relevant(h[0], call, streams):
+                fd, takes_self, name = h
+                if name in stack:
+                    raise Unrecognised("helper %s is recursive" % name, st)
+                if depth >= MAX_INLINE_DEPTH:
+                    raise Unrecognised("helpers nested deeper than %d (%s)" % (MAX_INLINE_DEPTH, " > ".join(stack + [name])), st)
+                try:
+                    body = self.instantiate(fd, takes_self, call, target)
+                except NotInlinable as e:
+                    raise Unrecognised("helper %s (defined at line %d) cannot be inlined: %s" % (name, fd.lineno, e), st)
+                self.notes.append("inlined %s (line %d)" % (name, st.lineno))
+                out.extend(self.expand(body, streams, depth + 1, stack + [name]))
+                continue
+            for field in ("body", "orelse", "finalbody"):
+                if isinstance(getattr(st, field, None), list):
+                    setattr(st, field, self.expand(getattr(st, field), streams, depth, stack))
+            for hd in getattr(st, "handlers", []) or []:
+                hd.body = self.expand(hd.body, streams, depth, stack)
+            out.append(st)
+        return out
+
+    # -- canonical forms --------------------------------------------------------------------------------
+    def canonical(self, stmts, streams):
+        out = []
+        i = 0
+        while i < len(stmts):
+            st = stmts[i]
+            i += 1
+            # `if <version test>: raise ... else: A`  ==  `if <version test>: raise ...` ; A      (and mirrored)
+            if isinstance(st, ast.If) and version_test(st.test) and st.orelse:
+                if only_raise(st.body):
+                    rest, st = st.orelse, ast.copy_location(ast.If(test=st.test, body=st.body, orelse=[]), st)
+                    out.append(st)
+                    out.extend(self.canonical(rest, streams))
+                    continue
+                if only_raise(st.orelse):
+                    neg = ast.copy_location(ast.UnaryOp(op=ast.Not(), operand=st.test), st)
+                    rest, st = st.body, ast.copy_location(ast.If(test=neg, body=st.orelse, orelse=[]), st)
+                    out.append(st)
+                    out.extend(self.canonical(rest, streams))
+                    continue
+            # `if not self.is_tag_next(T, s): raise ...` ; x = C() ; x.read(s)   ==   `if self.is_tag_next(T, s): x = C(); x.read(s) else: raise`
+            if isinstance(st, ast.If) and isinstance(st.test, ast.UnaryOp) and isinstance(st.test.op, ast.Not) \
+                    and isinstance(st.test.operand, ast.Call) and isinstance(st.test.operand.func, ast.Attribute) \
+                    and st.test.operand.func.attr == "is_tag_next" and only_raise(st.body) and not st.orelse:
+                j = i
+                while j < len(stmts) and isinstance(stmts[j], ast.Assign) and not _stream_ops_in(stmts[j]):
+                    j += 1
+                c = call_of(stmts[j]) if j < len(stmts) else None
+                if c is not None and method_call(c, "read") is not None:
+                    out.append(ast.copy_location(ast.If(test=st.test.operand, body=stmts[i:j + 1], orelse=st.body), st))
+                    i = j + 1
+                    continue
+            # `if X is None: A else: B`  /  `if not X: A else: B`  with the stream used in B only
+            if isinstance(st, ast.If) and st.orelse and not _stream_ops_in(ast.Module(body=st.body, type_ignores=[])) \
+                    and _stream_ops_in(ast.Module(body=st.orelse, type_ignores=[])) and not version_test(st.test):
+                t = st.test
+                pos = None
+                if isinstance(t, ast.Compare) and len(t.ops) == 1 and isinstance(t.ops[0], ast.Is) \
+                        and isinstance(t.comparators[0], ast.Constant) and t.comparators[0].value is None:
+                    pos = ast.copy_location(ast.Compare(left=t.left, ops=[ast.IsNot()], comparators=t.comparators), t)
+                elif isinstance(t, ast.UnaryOp) and isinstance(t.op, ast.Not):
+                    pos = t.operand
+                if pos is not None:
+                    body = [] if all(isinstance(x, ast.Pass) for x in st.body) else st.body
+                    st = ast.copy_location(ast.If(test=pos, body=st.orelse, orelse=body), st)
+            # loops
+            if isinstance(st, ast.For) and isinstance(st.iter, (ast.List, ast.Tuple)) and isinstance(st.target, ast.Name) \
+                    and not st.orelse and 0 < len(st.iter.elts) <= 32 \
+                    and not any(isinstance(n, (ast.Break, ast.Continue)) for n in ast.walk(st)) \
+                    and not any(isinstance(n, ast.Name) and n.id == st.target.id and isinstance(n.ctx, ast.Store)
+                                for b in st.body for n in ast.walk(b)):
+                # `for f in [a, b]: body`  ==  body[f := a] ; body[f := b]
+                unrolled = []
+                for e in st.iter.elts:
+                    unrolled.extend(self.substitute(st.body, {st.target.id: e}, st))
+                self.notes.append("loop over a list literal unrolled (line %d)" % st.lineno)
+                out.extend(self.canonical(unrolled, streams))
+                continue
+            if isinstance(st, ast.For):
+                st.iter = self.plain_iter(st.iter)
+                if isinstance(st.iter, ast.Name) and isinstance(st.target, ast.Name):
+                    st = self.fuse_list_loop(st, out)
+            for field in ("body", "orelse", "finalbody"):
+                if isinstance(getattr(st, field, None), list) and getattr(st, field):
+                    setattr(st, field, self.canonical(getattr(st, field), streams))
+            out.append(st)
+        return out
+
+    @staticmethod
+    def plain_iter(it):
+        """`X or []`, `list(X)`, `tuple(X)`, `X[:]` -> X"""
+        while True:
+            if isinstance(it, ast.BoolOp) and isinstance(it.op, ast.Or) and len(it.values) == 2 \
+                    and isinstance(it.values[1], (ast.List, ast.Tuple)) and not it.values[1].elts:
+                it = it.values[0]
+            elif isinstance(it, ast.Call) and isinstance(it.func, ast.Name) and it.func.id in ("list", "tuple") \
+                    and len(it.args) == 1 and not it.keywords:
+                it = it.args[0]
+            else:
+                return it
+
+    def fuse_list_loop(self, loop, before):
+        """`L = [E(n) for n in self._xs]` (or `L = []` + a loop appending / `L.extend(...)`) ... `for e in L: e.write(s)`
+        ==  `for n in self._xs: e = E(n); e.write(s)`; `before` are the statements preceding the loop in its block"""
+        name = loop.iter.id
+        defs = []
+        for k, s in enumerate(before):
+            if isinstance(s, ast.Assign) and len(s.targets) == 1 and isinstance(s.targets[0], ast.Name) \
+                    and s.targets[0].id == name:
+                defs.append((k, "assign", s))
+            elif isinstance(s, ast.For) and any(isinstance(c, ast.Call) and isinstance(c.func, ast.Attribute)
+                                               and c.func.attr in ("append", "extend") and isinstance(c.func.value, ast.Name)
+                                               and c.func.value.id == name for c in ast.walk(s)):
+                defs.append((k, "fill", s))
+            elif call_of(s) is not None and isinstance(call_of(s).func, ast.Attribute) and call_of(s).func.attr == "extend" \
+                    and isinstance(call_of(s).func.value, ast.Name) and call_of(s).func.value.id == name:
+                defs.append((k, "extend", s))
+            elif name in names_in(s):
+                return loop                      # used in some other way: leave it to the interpreter
+        source = None                            # (target name | None, iterable, element expression | None)
+        for k, kind, s in defs:
+            v = s.value if kind == "assign" else None
+            empty = v is not None and ((isinstance(v, (ast.List, ast.Tuple)) and not v.elts) or src(v) == "list()")
+            if kind == "assign" and empty:
+                continue
+            if source is not None:
+                return loop
+            if kind == "assign" and isinstance(v, ast.ListComp):
+                source = self.comprehension(v)
+            elif kind == "assign":
+                source = (None, self.plain_iter(v), None)
+            elif kind == "extend":
+                a = call_of(s).args[0] if len(call_of(s).args) == 1 else None
+                source = self.comprehension(a) if isinstance(a, (ast.ListComp, ast.GeneratorExp)) else \
+                    (None, self.plain_iter(a), None) if a is not None else None
+            elif kind == "fill":
+                c = call_of(s.body[0]) if len(s.body) == 1 else None
+                if not s.orelse and isinstance(s.target, ast.Name) and c is not None and c.func.attr == "append" \
+                        and len(c.args) == 1:
+                    source = (s.target.id, self.plain_iter(s.iter), c.args[0])
+            if source is None:
+                return loop
+        if source is None or self_attr(source[1]) is None:
+            return loop
+        tgt, it, elt = source
+        if elt is None or (isinstance(elt, ast.Name) and elt.id == tgt):
+            new = ast.For(target=loop.target, iter=it, body=loop.body, orelse=[])
+        else:
+            bind = ast.Assign(targets=[ast.Name(id=loop.target.id, ctx=ast.Store())], value=elt)
+            new = ast.For(target=ast.Name(id=tgt, ctx=ast.Store()), iter=it, body=[bind] + loop.body, orelse=[])
+        for x in ast.walk(new):
+            if not hasattr(x, "lineno"):
+                x.lineno, x.col_offset = loop.lineno, loop.col_offset
+        self.notes.append("loop over the local list %s (line %d) read as a loop over %s" % (name, loop.lineno, src(it)))
+        return ast.copy_location(new, loop)
+
+    @staticmethod
+    def comprehension(v):
+        if len(v.generators) == 1 and not v.generators[0].ifs and isinstance(v.generators[0].target, ast.Name):
+            g = v.generators[0]
+            return (g.target.id, Normaliser.plain_iter(g.iter), v.elt)
+        return None
+
+    # -- entry ------------------------------------------------------------------------------------------
+    def method(self, fn):
+        fn = copy.deepcopy(fn)
+        params = [a.arg for a in fn.args.args]
+        if len(params) >= 3 and params[2] != "kmip_version":
+            old = params[2]
+            for n in ast.walk(fn):
+                if isinstance(n, ast.Name) and n.id == old:
+                    n.id = "kmip_version"
+                if isinstance(n, ast.arg) and n.arg == old:
+                    n.arg = "kmip_version"
+        streams = {params[1]} if len(params) > 1 else set()
+        for n in ast.walk(fn):
+            if isinstance(n, ast.Assign) and len(n.targets) == 1 and isinstance(n.targets[0], ast.Name) \
+                    and isinstance(n.value, ast.Call) and src(n.value.func).endswith("BytearrayStream"):
+                streams.add(n.targets[0].id)
+        body = strip_doc(fn.body)
+        body = self.expand(body, streams, 0, [])
+        if _has_return(body):
+            try:
+                body, _ = eliminate_returns(body, None)
+            except NotInlinable as e:
+                raise Unrecognised("%s() uses `return` in a way that cannot be rewritten: %s" % (fn.name, e), fn)
+        fn.body = self.canonical(body, streams) or [ast.Pass()]
+        for n in ast.walk(fn):
+            if isinstance(n, (ast.stmt, ast.expr)) and not hasattr(n, "lineno"):
+                n.lineno, n.col_offset = fn.lineno, 0
+        return fn
+
+
+# ---------------------------------------------------------------------------------------------------------
 # read()
 # ---------------------------------------------------------------------------------------------------------
 
@@ -392,6 +836,7 @@ class Common(object):
         self.cls_node = cls_node
         self.fields = []
         self.approx = []
+        self.approx_lines = []
         self.notes = []
         self.class_range = (10, 20)
         self.streams = set()
@@ -399,9 +844,14 @@ class Common(object):
         self.param_stream = fn.args.args[1].arg if len(fn.args.args) > 1 else None
 
     def add_approx(self, why, node=None):
-        s = why + (" (line %d)" % node.lineno if node is not None and hasattr(node, "lineno") else "")
-        if s not in self.approx:
-            self.approx.append(s)
+        """reasons go to the Lean file without source lines (a pure line shift must not change it); the report has
+        them with the line"""
+        line = node.lineno if node is not None and hasattr(node, "lineno") else None
+        if why not in self.approx:
+            self.approx.append(why)
+        s = why + (" (line %d)" % line if line else "")
+        if s not in self.approx_lines:
+            self.approx_lines.append(s)
 
     def note(self, s):
         if s not in self.notes:
@@ -912,8 +1362,14 @@ class Reader(Common):
 
     def linear(self):
         """simple statements of the method in source order"""
-        out = [n for n in ast.walk(self.fn) if isinstance(n, (ast.Assign, ast.Expr))]
-        out.sort(key=lambda n: (n.lineno, n.col_offset))
+        out = []
+
+        def visit(n):
+            if isinstance(n, (ast.Assign, ast.Expr)):
+                out.append(n)
+            for ch in ast.iter_child_nodes(n):
+                visit(ch)
+        visit(self.fn)          # pre-order = source order (inlined helper bodies carry the call's line number)
         return out
 
 
@@ -953,9 +1409,15 @@ class Writer(Common):
             return (max(ver[0], self._narrow[0]), min(ver[1], self._narrow[1]))
         return ver
 
+    depth = 0
+
     def block(self, stmts, ver):
-        for st in stmts:
-            self.statement(st, ver)
+        self.depth += 1
+        try:
+            for st in stmts:
+                self.statement(st, ver)
+        finally:
+            self.depth -= 1
 
     def write_call(self, st):
         c = call_of(st)
@@ -980,6 +1442,9 @@ class Writer(Common):
             return
         ver = self.narrow(ver)
         # trailer
+        if self.depth > 1 and (src(st).startswith("self.length =") or
+                               (c is not None and src(c.func) == "%s.write" % self.param_stream)):
+            raise Unrecognised("the structure header / buffer is written inside a branch", st)
         if isinstance(st, ast.Assign) and src(st.targets[0]) == "self.length" and \
                 any(src(st.value) == "%s.length()" % s for s in self.streams):
             self.trailer.add("length")
@@ -1319,8 +1784,9 @@ def translate(repo):
                 if inst is None or oracle.describe(inst) is None or oracle.describe(inst)[1] != "struct":
                     raise Unrecognised("the class cannot be instantiated without arguments to learn its tag", node)
                 entry["tag"] = oracle.describe(inst)[0]
+                norm = Normaliser(tree, node, oracle)
                 try:
-                    R = Reader(ms["read"], oracle, node)
+                    R = Reader(norm.method(ms["read"]), oracle, node)
                     rf = R.run()
                 except Unrecognised as e:
                     e.reason = "read(): " + e.reason
@@ -1329,7 +1795,7 @@ def translate(repo):
                                     "child may carry any tag the factory knows, no fixed field list describes that]"
                     raise
                 try:
-                    W = Writer(ms["write"], oracle, node)
+                    W = Writer(norm.method(ms["write"]), oracle, node)
                     wf = W.run()
                     wf = resolve_written(wf, rf, node, oracle)
                 except Unrecognised as e:
@@ -1339,7 +1805,8 @@ def translate(repo):
                 if R.class_range != W.class_range:
                     R.note("read() supports KMIP %s..%s and write() %s..%s" % (R.class_range + W.class_range))
                 entry.update(R=rf, W=wf, approx=R.approx + [a for a in W.approx if a not in R.approx],
-                             notes=R.notes + [n for n in W.notes if n not in R.notes],
+                             approx_lines=R.approx_lines + [a for a in W.approx_lines if a not in R.approx_lines],
+                             notes=R.notes + [n for n in W.notes if n not in R.notes] + norm.notes,
                              rmin=R.class_range[0], wmin=W.class_range[0], validate=R.validate)
                 classes.append(entry)
             except Unrecognised as e:
@@ -1384,9 +1851,8 @@ def lean_schema(c, which, tagnames):
     lines = []
     for i, f in enumerate(fs):
         sep = "," if i + 1 < len(fs) else "]⟩"
-        lines.append("  %s%s  -- %s%s, line %d%s" % (lean_field(f, tagnames), sep, tagnames.get(f.tag, "?"),
-                                                     " -> " + f.slot if f.slot else "", f.line,
-                                                     ", at least one" if f.min1 else ""))
+        lines.append("  %s%s  -- %s%s%s" % (lean_field(f, tagnames), sep, tagnames.get(f.tag, "?"),
+                                            " -> " + f.slot if f.slot else "", ", at least one" if f.min1 else ""))
     head = "def %s.%s : Schema := ⟨%s, 0x%06X, [" % (c["name"], which.lower(), lean_str(c["name"]), c["tag"])
     if not fs:
         return head + "]⟩\n"
@@ -1409,7 +1875,7 @@ def generate(repo):
       "   `X.r` is what X.read() accepts, `X.w` what X.write() emits, each derived from its own method. -/\n")
     w("import KmipModel.Schema\nnamespace Kmip.SchemaGen\nopen Kmip.Schema\n\n")
     for c in classes:
-        w("/-- %s l.%d (read), l.%d (write) -/\n" % (c["file"], c["read_line"], c["write_line"]))
+        w("/-- %s (source lines of every field: schemas_report.json) -/\n" % c["file"])
         w(lean_schema(c, "R", tagnames))
         w(lean_schema(c, "W", tagnames))
         w("\n")
@@ -1441,7 +1907,7 @@ def generate(repo):
     w("/-- classes left out: read()/write() contain a construct the translator does not classify -/\n")
     w("def genUnrecognised : List String := %s\n\n" % lean_list([lean_str(u["name"]) for u in unrec]))
     w("def genUnrecognisedWhy : List (String × String) := %s\n\n" % lean_list(
-        ["(%s, %s)" % (lean_str(u["name"]), lean_str("%s:%s: %s" % (u["file"], u["line"], u["reason"]))) for u in unrec], 1))
+        ["(%s, %s)" % (lean_str(u["name"]), lean_str("%s: %s" % (u["file"], re.sub(r"\s*\((?:defined at )?line \d+\)", "", u["reason"])))) for u in unrec], 1))
     w("end Kmip.SchemaGen\n")
     prov = {}
     for c in classes:
@@ -1464,7 +1930,7 @@ def generate(repo):
         "classes": [{"name": c["name"], "file": c["file"], "tag": "0x%06X" % c["tag"],
                      "read_line": c["read_line"], "write_line": c["write_line"],
                      "read_class_min": c["rmin"], "write_class_min": c["wmin"], "calls_validate": c["validate"],
-                     "approx": c["approx"], "notes": c["notes"],
+                     "approx": c["approx_lines"], "notes": c["notes"],
                      "R": [f.as_json(tagnames) for f in c["R"]], "W": [f.as_json(tagnames) for f in c["W"]]}
                     for c in classes],
         "unrecognised_classes": [{"name": u["name"], "file": u["file"], "line": u["line"], "reason": u["reason"]}
